@@ -320,9 +320,12 @@ def check(col: Collector, tier: str):
         pmf_ = parent_map(f.node)
         adds = [n for n in walk_no_nested(f.node) if isinstance(n, (ast.AugAssign, ast.Call)) and (
             (isinstance(n, ast.AugAssign) and src(n.target) == f"self.{lst}") or (isinstance(n, ast.Call) and call_name(n) == "append" and src(n.func.value) == f"self.{lst}"))]
-        ok = len(adds) == 1 and any(isinstance(t, ast.Compare) and isinstance(t.ops[0], ast.In) and not tr and src(t.left) == p0 and src(t.comparators[0]) == f"self.{lst}"
-                                    for t, tr in guards(f.node, adds[0], pmf_))
-        col.add("C06.R6", f.short, "appended-once-under-not-in", ok, f"{meth} must append {p0} only if it is not already in self.{lst}", f.loc)
+        gs_ = {(src(t), tr) for t, tr in guards(f.node, adds[0], pmf_)} if len(adds) == 1 else set()
+        # exactly that condition: anything else that keeps a requested item out (an "equivalent" header under another spelling, a prefix
+        # test, a size limit) drops something the generated code needs
+        ok = len(adds) == 1 and gs_ == {(f"{p0} in self.{lst}", False)}
+        col.add("C06.R6", f.short, "appended-once-under-not-in", ok,
+                f"{meth} must append {p0} if - and only if - it is not already in self.{lst} (conditions found: {sorted(gs_)})", f.loc)
     pan = repo.function("process_ast_node")
     for attr, meth in (("include_files", "add_include"), ("link_libraries", "add_link_library")):
         ok = any(isinstance(n, ast.For) and src(n.iter).endswith(f".{attr}") and any(
